@@ -659,7 +659,12 @@ func (m *Model) buildMap(named *types.Named, iface string) *MapModel {
 								mm.InProg = f
 							}
 							if a.Owner == mm.Name && a.Field == mm.TableF {
-								mm.NewerTbl = f
+								// several boolean helpers may look at the table word (e.g. "is the table minimal now"):
+								// the identity test is the one whose result is a bare (in)equality; among equals the one the
+								// compute core calls
+								if mm.NewerTbl == nil || newerTblRank(p, mm, f) > newerTblRank(p, mm, mm.NewerTbl) {
+									mm.NewerTbl = f
+								}
 							}
 						}
 					}
@@ -1533,4 +1538,38 @@ func elemOf2(t types.Type) types.Type {
 		return p.Elem()
 	}
 	return t
+}
+
+// newerTblRank orders the candidates for the table identity helper: 2 for a bare (in)equality on every return, +1 when the
+// compute core calls it.
+func newerTblRank(p *Prog, mm *MapModel, f *ssa.Function) int {
+	rank, pure, nRet := 0, true, 0
+	Instrs(f, func(in ssa.Instruction) {
+		ret, ok := in.(*ssa.Return)
+		if !ok || len(ret.Results) != 1 {
+			return
+		}
+		nRet++
+		v := ret.Results[0]
+		for {
+			if u, isU := v.(*ssa.UnOp); isU && u.Op == token.NOT {
+				v = u.X
+				continue
+			}
+			break
+		}
+		if b, isB := v.(*ssa.BinOp); !isB || (b.Op != token.EQL && b.Op != token.NEQ) {
+			pure = false
+		}
+	})
+	if pure && nRet > 0 {
+		rank += 2
+	}
+	for _, s := range CallSitesOf(p.Funcs, f) {
+		if s.Parent() == mm.Core {
+			rank++
+			break
+		}
+	}
+	return rank
 }
